@@ -119,6 +119,11 @@ class RefSchema:
                         if m[3]:
                             self.optional_component_required_members.append((where, d[1], m[2]))
                 out.extend(sub)
+        seen = set()
+        for m in out:
+            if m[1] in seen:
+                raise RefError(f"member {m[2]} occurs twice in {where}")
+            seen.add(m[1])
         return out
 
     def _field(self, name):
